@@ -125,6 +125,8 @@ func (*compiler).evaluate
   modifies *
   ensures 1 <= tyClassOf(expr) && tyClassOf(expr) <= 5 ==>
             result1 == descr(c, tyClassOf(expr)) && ir.irty(result0) == irOfClass(tyClassOf(expr)) && !ir.isIntConst(result0)
+  // evaluate returns the visitor's result registers
+  ensures c.latestReturn == result0 && c.latestReturnType == result1
 
 func (*compiler).commentNode
   trusted
